@@ -160,6 +160,12 @@ def run(ctx):
         for arm in (mx, mn):
             for c in [x for s in arm for x in ast.walk(s) if isinstance(x, ast.Call) and dotted(x.func) in ("max", "min")]:
                 k = kwarg(c, "key")
+                # the key may be a lambda or a named function whose body is one return
+                if isinstance(k, ast.Name):
+                    kf = p.funcs.get(f"{f.module.name}.{k.id}")
+                    body = [st for st in kf.node.body if not (isinstance(st, ast.Expr) and isinstance(st.value, ast.Constant))] if kf is not None else []
+                    if len(body) == 1 and isinstance(body[0], ast.Return) and body[0].value is not None and len(kf.node.args.args) == 1:
+                        k = ast.Lambda(args=kf.node.args, body=body[0].value)
                 okk = isinstance(k, ast.Lambda) and norm(k.body).endswith(f"{k.args.args[0].arg}.value)") or (isinstance(k, ast.Lambda) and norm(k.body) == f"{k.args.args[0].arg}.value")
                 ctx.check(bool(okk), "R12.2", f.short, f"key-is-value:{dotted(c.func)}", message=f"best trial selected by key `{norm(k) if k is not None else None}`", how="key=lambda t: t.value")
                 ctx.check(bool(c.args) and norm(c.args[0]) == src_name, "R12.2", f.short, f"source:{dotted(c.func)}",
